@@ -60,3 +60,23 @@ Example C13_client_instance :
   | None => False
   end.
 Proof. vm_compute. reflexivity. Qed.
+
+(** model and retain_choice_bottom_up (True / False filter) as clients of the table *)
+From Rsbdd Require Import Env.HeapOps2.
+Theorem C13_model_client fuel h a x res : Inv h -> range h a -> struct h a = Some x ->
+  h_model fuel h a = Some res -> okres h (bmodel x) res.
+Proof. exact (h_model_ok fuel h a x res). Qed.
+Theorem C13_retain_client filt fuel h a x res : Inv h -> range h a -> struct h a = Some x ->
+  h_retain fuel filt h a = Some res -> okres h (retain_go filt x) res.
+Proof. exact (h_retain_ok filt fuel h a x res). Qed.
+Print Assumptions C13_model_client. Print Assumptions C13_retain_client.
+Theorem C13_clean_client h a x res : Inv h -> range h a -> struct h a = Some x -> h_clean h a = Some res -> okres h (clean x) res.
+Proof. exact (h_clean_ok h a x res). Qed.
+(** fp with any client transformer t (one that refines a tree-level tt) is a client: it stops exactly when the tree-level
+    iteration fp_f stops, at a pointer to that iterate; `snew == s` is pointer equality because of sharing *)
+Theorem C13_fp_client (t : heap -> addr -> option (heap * addr)) (tt : bdd -> bdd) :
+  (forall h a x res, Inv h -> range h a -> struct h a = Some x -> t h a = Some res -> okres h (tt x) res) ->
+  forall fuel h s x res, Inv h -> range h s -> struct h s = Some x -> h_fp fuel h s t = Some res ->
+  exists r, fp_f fuel x tt = Some r /\ okres h r res.
+Proof. exact (h_fp_ok t tt). Qed.
+Print Assumptions C13_clean_client. Print Assumptions C13_fp_client.
